@@ -195,7 +195,8 @@ def identity(run, prog, rule, cq, expect=None, why=""):
                 if rv[0] == "new" and rv[1] == cq:
                     for f, v in rv[2]:
                         if f in want[2]:
-                            okc = v[0] == "set" or (v[0] == "call" and v[1][0] == "ext" and v[1][1] in ("frozenset", "set"))
+                            okc = v[0] == "set" or (v[0] == "comp" and v[1] == "set") or (v[0] == "call" and v[1][0] == "ext" and v[1][1] in ("frozenset", "set")) \
+                                or (v[0] == "attr" and v[2] == f)  # (copied from another instance's field)
                             run.ob(rule, f"{m.qual}:{f}-is-a-set", okc, loc(m), f"{f} = {show(v)[:60]}" + ("" if okc else f"; must be a (frozen)set: the identity of a {ci.name} does not depend on the order of its {f}"))
 
 
@@ -327,6 +328,44 @@ def decorator_model(run, prog, rule):
            "the decorator logs exceptions derived from Exception and returns None, everything else passes" if ok else why)
 
 
+def memoisation(run, prog, rule, classes):
+    """M7: a function memoised with functools.lru_cache / cache answers from its table whenever the arguments are *equal*.
+    For an argument class whose equality leaves fields out (compare=False), two calls that differ only there get the first
+    call's result: the result may not depend on those fields (nor be, or embed, the argument object itself)"""
+    from ..terms import contains
+    from ..util import P
+    eng = engine(prog, InlineOnly(names=(), props=True, max_depth=1))
+    for fi in sorted(prog.functions.values(), key=lambda f: f.qual):
+        if not any(d.split(".")[-1] in ("lru_cache", "cache") for d in fi.decorators):
+            continue
+        a = fi.node.args
+        for arg in a.posonlyargs + a.args + a.kwonlyargs:
+            ty = eng.typer.ann_type(arg.annotation, fi.module) if arg.annotation is not None else None
+            if arg.arg in ("self", "cls") and fi.cls is not None and ty is None:
+                ty = ("cls", fi.cls.qual)
+            cq = ty[1] if ty and ty[0] == "cls" else None
+            if cq not in classes or not prog.is_dataclass(cq):
+                continue
+            ignored = {f.name for f in prog.all_fields(cq) if not f.compare}
+            if not ignored:
+                continue
+            pt = ("self", cq) if arg.arg == "self" else P(fi, arg.arg)
+            dep = None
+            for p in eng.paths(fi, recv=fi.cls.qual if fi.cls is not None else None):
+                if not p.returns():
+                    continue
+                rv = p.retval()
+                if contains(rv, lambda t_: t_[0] == "attr" and t_[1] == pt and t_[2] in ignored):
+                    dep = dep or "reads " + ", ".join(sorted(t_[2] for t_ in subterms(rv) if t_[0] == "attr" and t_[1] == pt and t_[2] in ignored))
+                bare = rv == pt or contains(rv, lambda t_: t_ == pt) and not contains(rv, lambda t_: t_[0] == "attr" and t_[1] == pt)
+                if bare:
+                    dep = dep or "is (or embeds) the argument object itself"
+            run.ob(rule, f"{fi.qual}:memoised-on-full-identity[{arg.arg}]", dep is None, loc(fi),
+                   f"memoised on the equality of {cq}, which leaves out {sorted(ignored)}; the result does not depend on them" if dep is None else
+                   f"memoised on the equality of {cq}, which leaves out {sorted(ignored)}, but the result {dep}: a second call with an equal "
+                   f"{prog.classes[cq].name} that differs in {sorted(ignored)} is answered with the first call's result (stale {sorted(ignored)[0]})")
+
+
 # ---------------------------------------------------------------------------------------------------------------------
 # which classes' object model each property's argument rests on (one line of reason each)
 def _option_classes(prog):
@@ -376,6 +415,8 @@ def audit(run, prog, prop, rule="OM"):
                 value_class(run, prog, rule, q, expect=ALL_FIELDS, why=spec.get("why", "wire objects are equal iff every field is"))
         for eq in spec.get("enums", ()):
             strict_enum(run, prog, rule, eq)
+        if spec.get("values"):
+            memoisation(run, prog, rule, set(spec["values"]))
         # (the decorator's own behaviour matters to a property only while a method of the classes its argument reads is
         # decorated with it)
         used = [f.qual for f in prog.functions.values() if f.log_exceptions and f.cls is not None and f.cls.qual in spec.get("decorators", ())]
